@@ -46,7 +46,7 @@ def run(tier, seed, replay):
     paths, left = graph.cover(seed=seed, max_len=40, max_paths=None if big else 600, prefer=prefer)
     behs = [graph.behaviour(p) for p in paths]
     # garbage interleaved, IP target, same-domain sessions (cache hits)
-    g2, _ = udprelay.model(dict(Sess='{"s1","s2"}', Targets='{"a","ip"}', Domains='{"a"}', Rejected="{}", MaxSend=2, ChanCap=2, MaxReply=0, MaxTimer=0),
+    g2, _ = udprelay.model(dict(Sess='{"s1","s2"}', Targets='{"a","ip"}', Domains='{"a"}', Rejected="{}", MaxSend=2, ChanCap=2, MaxReply=0, MaxTimer=0, GarbageOn="TRUE"),
                            props=False, edges=True)
     graph2 = udprelay.urgent_filter(vlib.Graph(g2), drop=("StopBegin",))
     paths2, left2 = graph2.cover(seed=seed, max_len=40, max_paths=(3000 if big else 300), prefer=lambda e: e[1]["n"] in ("Garbage", "PackChk"))
@@ -60,6 +60,20 @@ def run(tier, seed, replay):
     n1, s1, d1 = udprelay.replay(v, binary, behs, variants, seed, "isolation replay")
     n2, s2, d2 = udprelay.replay(v, binary, [graph2.behaviour(p) for p in paths2] + [graph5.behaviour(p) for p in paths5], variants[:1], seed,
                                  "isolation replay (cache hits, garbage, failed lookups)")
+    # (2c) garbage at every state of one session's life, in particular as the very first datagram of a client address:
+    #      small graph, covered completely, on both receive paths
+    g7, _ = udprelay.model(dict(Sess='{"s1"}', Targets='{"ip"}', Domains="{}", Rejected="{}", MaxSend=2, ChanCap=2, MaxReply=1, MaxTimer=0, GarbageOn="TRUE"), props=False, edges=True)
+    graph7 = udprelay.urgent_filter(vlib.Graph(g7), drop=("StopBegin",))
+    paths7, left7 = graph7.cover(seed=seed, max_len=40, prefer=lambda e: e[1]["n"] == "Garbage", tail=12)
+    n7, s7, d7 = udprelay.replay(v, binary, [graph7.behaviour(p) for p in paths7], variants[:1], seed, "garbage-first replay")
+    # (the batched uplink of the sendmmsg path is replayed with at most one packet queued)
+    g7m, _ = udprelay.model(dict(Sess='{"s1"}', Targets='{"ip"}', Domains="{}", Rejected="{}", MaxSend=1, ChanCap=1, MaxReply=1, MaxTimer=0, GarbageOn="TRUE"), props=False, edges=True)
+    graph7m = udprelay.urgent_filter(vlib.Graph(g7m), drop=("StopBegin",))
+    paths7m, _ = graph7m.cover(seed=seed, max_len=40, prefer=lambda e: e[1]["n"] == "Garbage", tail=12)
+    n7m, s7m, d7m = udprelay.replay(v, binary, [graph7m.behaviour(p) for p in paths7m], variants[1:], seed, "garbage-first replay")
+    n7, s7, d7 = n7 + n7m, s7 + s7m, max(d7, d7m)
+    v.coverage["replay_graphs"].append({"relay": "one session, garbage at every state", "distinct": g7.distinct, "edges": len(graph7.edges), "paths": len(paths7), "uncovered_edges": left7})
+    n2, s2, d2 = n2 + n7, s2 + s7, max(d2, d7)
     # (3) session-id keyed relay (Shadowsocks 2022 server): the client moves to another address mid-session, forged/replayed
     #     datagrams with the session's id arrive from a foreign address; replies must follow the latest authenticated address
     g3, _ = udprelay.model(dict(Sess='{"s1"}', Targets='{"ip"}', Domains="{}", Rejected="{}", MaxSend=2, ChanCap=2, MaxReply=2, MaxTimer=0, Keyed='"sid"'),
